@@ -33,7 +33,11 @@ def cases(draw):
     else:
         rate, bs = draw(st.sampled_from(gen.SETTINGS_3D))
     mode = draw(st.sampled_from(["thorough", "exhaustive", "heuristic"]))
-    return {"src": src, "setting": {"rate": rate, "blockshape": list(bs)}, "mode": mode,
+    # the exporting object is an SgzReader: it may be opened with preload and may have served other calls first
+    before = draw(st.lists(st.sampled_from(["gen_trace_header", "get_tracefield_values", "get_trace", "convert_to_segy"]),
+                           max_size=3)) if draw(st.integers(0, 2)) == 0 else []
+    return {"src": src, "setting": {"rate": rate, "blockshape": list(bs)}, "mode": mode, "before": before,
+            "preload": draw(st.sampled_from([False, False, True])), "u": [draw(st.floats(0, 1, exclude_max=True)) for _ in range(3)],
             "via": draw(st.sampled_from(["api", "api", "cli"]))}
 
 
@@ -51,9 +55,22 @@ def run_case(case, ctx):
     conv.segy_convert(S.path, sgz, rate, bs, header_detection=case["mode"])
     out = os.path.join(d, "back.sgy")
     if case["via"] == "api":
-        c = SgzConverter(sgz)
+        c = SgzConverter(sgz, preload=bool(case.get("preload")))
         try:
             with conv.env.quiet():
+                u = case.get("u", [0.5, 0.5, 0.5])
+                for k, b in enumerate(case.get("before", [])):
+                    try:
+                        if b == "gen_trace_header":
+                            c.gen_trace_header(int(u[k] * c.tracecount))
+                        elif b == "get_tracefield_values" and len(c.stored_header_keys):
+                            c.get_tracefield_values(list(c.stored_header_keys)[int(u[k] * len(c.stored_header_keys))])
+                        elif b == "get_trace":
+                            c.get_trace(int(u[k] * c.tracecount))
+                        elif b == "convert_to_segy":
+                            c.convert_to_segy(os.path.join(d, "other.sgy"))
+                    except Exception as e:
+                        raise Violation(f"earlier-call-failed:{b}", f"{b} on the exporting object: {type(e).__name__}: {e}")
                 c.convert_to_segy(out)
         finally:
             c.close()
@@ -103,7 +120,9 @@ def run_case(case, ctx):
     ext = case["src"]["ext"]
     nontriv = geom != "regular" or a["format"] == 1 or n_arrays >= 3 or ext
     return {"sig": [geom, a["format"], rate, list(bs), min(n_arrays, 5), ext, case["via"], case["mode"]] if nontriv else None,
-            "labels": [geom, f"fmt{a['format']}", f"ext{ext}", case["via"], case["mode"]]}
+            "labels": [geom, f"fmt{a['format']}", f"ext{ext}", case["via"], case["mode"]]
+            + ["before:" + b for b in (case.get("before", []) if case["via"] == "api" else [])]
+            + (["preload"] if case.get("preload") and case["via"] == "api" else [])}
 
 
 def shard_main(ctx):
